@@ -11,7 +11,8 @@ def main(tier):
     kernels.merge_structure(P, rep)
     kernels.barycentric(P, rep)
     dep.surface_fallback(P, rep)
-    rep.assumptions.append("the Delaunay triangulation (third-party delaunator) and the tolerance arithmetic of the in-triangle test are NOT decided")
+    dep.surface_pairing(P, rep)    # consumers: the depth listed at a point reaches the model that uses it
+    rep.assumptions.append("the Delaunay triangulation (third-party delaunator) is NOT decided; of the in-triangle tolerances only their form (slack proportional to machine epsilon) is")
     rep.explanation = ("Reflexivity of the same-point test over the sign domain, structure of the corner/user point merge, symbolic proof that "
                        "the in-triangle interpolant is the affine function through the triangle's three vertices (with the constructor's "
                        "precomputed coefficients), vertex pairing, min/max over all nodal values, full-scan fallback.")
